@@ -316,6 +316,11 @@ class FunTr:
                 c = ('eq', p, r)
                 return pre + p1, (c if isinstance(op, ast.Eq) else ('not', c))
             self.fail(node, 'unsupported comparison')
+        if isinstance(node, ast.Call) and isinstance(node.func, ast.Name) and node.func.id == 'isinstance' \
+                and 'isinstance' not in env and len(node.args) == 2 and not node.keywords \
+                and isinstance(node.args[1], ast.Name) and node.args[1].id == 'str' and 'str' not in env:
+            pre, p = self.pure_value(node.args[0], env)
+            return pre, ('isstr', p)
         pre, p, t = self.expr(node, env)
         if t != 'pval':
             self.fail(node, 'truth value of a ' + t)
@@ -574,6 +579,8 @@ class CoqOut:
             return f'(py_in {self.P(c[1])} [' + '; '.join(self.const(v) for v in c[2]) + '])'
         if k == 'isnone':
             return f'(is_none {self.P(c[1])})'
+        if k == 'isstr':
+            return f'(is_str {self.P(c[1])})'
         if k == 'isnonef':
             return f'(is_nonef {self.P(c[1])})'
         if k == 'eq':
@@ -874,6 +881,8 @@ class Eval:
             return self.s.isin(self.P(c[1], env), c[2])
         if k == 'isnone':
             return self.P(c[1], env)[0] == 'N'
+        if k == 'isstr':
+            return self.P(c[1], env)[0] == 'S'
         if k == 'isnonef':
             return self.P(c[1], env) is None
         if k == 'eq':
